@@ -219,7 +219,7 @@ def c07_1(cx):
     cx.check(bool(n.calls(r"checked_add$")), "next_generation uses checked arithmetic (overflow => None)", body=n, key="checked-add")
 
 
-@ob("C07.3", ["C07", "C23", "C01"], "updating a struct that was already read in this revision mutates data behind live references; overwriting the write-lock marker hides a concurrent writer", kind="ONLYIF")
+@ob("C07.3", ["C07", "C23", "C01", "C16"], "updating a struct that was already read in this revision mutates data behind live references; overwriting the write-lock marker hides a concurrent writer", kind="ONLYIF")
 def c07_3(cx):
     """update: asserts updated_at.is_some(); returns early if updated_at == Some(current_revision); the write-lock swap(None) happens only otherwise and must return the value just loaded; after the update swap(Some(current_revision)) must have returned None. acquire_read_lock never overwrites None."""
     u = cx.fn(TS + r"update$")
@@ -241,6 +241,9 @@ def c07_3(cx):
     cas = r.calls(r"compare_exchange")
     sts = r.calls(r"OptionalAtomicRevision::(store|swap)$")
     cx.check(not sts, "acquire_read_lock never blindly stores into the lock word", sts[0] if sts else None, key="no-blind-store", body=r)
+    # losing the compare_exchange to ANOTHER READER of the same revision is normal: the function must look again
+    # (loop), not panic and not proceed without having observed Some(current_revision)
+    cx.check(bool(r.back_edges()), "a reader that loses the compare_exchange race retries (loop)", (cas or [None])[0], key="read-lock-retries", body=r)
     cx.sites(cas, 1, "compare_exchange in acquire_read_lock")
     for c in cas:
         cx.flow(r, cx.arg(c, 1), [r"^Option::Some\{0: .*\}$|^revision::OptionalAtomicRevision::load\(\$1\)$|Some"], [r"^Option::None\{\}$"], "the expected value of the CAS is a Some(revision), never None", c)
@@ -319,3 +322,34 @@ def c07_5(cx):
             ok = bool(re.search(r"::(lock_fields|update|allocate|new_struct|memory_usage|fields|leak_fields)$|Serialize|Deserialize|heap_size|Slot>::|drop", b.path))
             cx.check(ok, "the fields of a tracked struct are touched only by lock_fields (read lock), update (write lock) or whole-value code", s, {"origin": o[:120]}, key="fields-access " + b.path)
     cx.note("field-access census: %d sites" % n)
+
+
+@ob("C06.7", ["C06", "C05", "C23"], "outputs (tracked structs, specified values) are owned by the memo that created them; a reconciliation or deletion cascade that skips some memos (untracked ones, value-less evicted ones) leaves their structs allocated, enumerated and memoized forever", kind="ONLYIF (early exits of the output walks)")
+def c06_7(cx):
+    """diff_outputs gives up before reporting stale outputs only for an Assigned old memo (both Derived and DerivedUntracked memos are reconciled) or when there is nothing stale; MemoHeader::remove_outputs visits every output edge and every tracked struct id of the memo unconditionally (also for a memo whose value was evicted); the generic Memo::remove_outputs forwards to it on every path."""
+    d = cx.fn(r"^function::diff_outputs::<impl function::memo::MemoHeader>::diff_outputs$")
+    reps = cx.some_calls(d, r"^function::diff_outputs::report_stale_output$", 2, "report_stale_output sites")
+    first = [r for r in reps if all(r == o or not d.reaches(o, r) or d.reaches(r, o) for o in reps)]
+    # returns that are reached without ever looking at the stale tracked structs: only for Assigned
+    loops = cx.for_loops(d)
+    cx.require(len(loops) >= 2, "diff_outputs: loops over stale structs / stale outputs")
+    hdr = min(loops, key=lambda l: l[0].line() if callable(l[0].line) else l[0].line)[0]
+    eng = OnlyIf(cx.facts, d)
+    asg = VariantIn(r"MemoHeader::origin\(\$1\)$", {"Assigned"}, desc="old memo is Assigned")
+    e = eng.establishing_edges(asg)
+    reach = d.reachable(0, "normal", cut_edges=e, cut_blocks={hdr.bb})
+    bad = [r for r in d.return_blocks() if r in reach]
+    cx.check(not bad, "diff_outputs skips the reconciliation only for an Assigned old memo (Derived AND DerivedUntracked memos own outputs)", hdr, {"returns_reached": bad}, key="diff-early-exit")
+    r = cx.fn(r"^function::memo::MemoHeader::remove_outputs$")
+    loops = cx.for_loops(r)
+    cx.require(len(loops) == 2, "remove_outputs: two loops (output edges, tracked struct ids)")
+    rs = cx.some_calls(r, r"^key::DatabaseKeyIndex::remove_stale_output$", 2, "remove_stale_output calls")
+    for nx, some_bb, none_bb in loops:
+        mine = [s for s in rs if s.bb in r.reachable(some_bb, "normal", cut_blocks={nx.bb})]
+        cx.for_each(r, nx, mine, "remove_outputs loop at line %s" % r.blocks[nx.bb]["term"].get("ln"))
+    first_hdr = [l[0] for l in loops if all(l[0] == o[0] or r.reaches(l[0], o[0]) for o in loops)]
+    cx.require(len(first_hdr) == 1, "first loop of remove_outputs")
+    reach = r.reachable(0, "normal", cut_blocks={first_hdr[0].bb})
+    cx.check(not [x for x in r.return_blocks() if x in reach], "remove_outputs has no early exit (a value-less memo still owns its outputs)", first_hdr[0], key="remove-no-early-exit")
+    for g in cx.fns(r"^<function::memo::Memo<C> as table::memo::Memo>::remove_outputs$", 1):
+        cx.check(cx.facts.must_call(g, r"^function::memo::MemoHeader::remove_outputs$"), "Memo::remove_outputs always forwards to the header walk", body=g, key="forward-always")
